@@ -24,12 +24,14 @@ open Acn
 inductive FeasErr where
   | invalidSchedule   -- interface.py:659 `InvalidScheduleError`
   | valueError        -- interface.py:278 `InfrastructureInfo._validate`
+  | indexError        -- numpy fancy indexing beyond the schedule (`time_indices`, charging_network.py:470)
   | typeError         -- indexing `constraint_matrix = None` (unreachable through the public API)
   deriving DecidableEq, Repr
 
 def FeasErr.name : FeasErr → String
   | .invalidSchedule => "InvalidSchedule"
   | .valueError => "ValueError"
+  | .indexError => "IndexError"
   | .typeError => "TypeError"
 
 section
@@ -125,6 +127,46 @@ def algLinearCode2 (M : List (List K)) (lims : List K) (vt rt : K) (S : List (Li
       decide (sumK ((List.range (periods S)).map fun t =>
         linAggDoc row (col S t) * linAggDoc row (col S t)) ≤ b * b)
 
+/-! ### `constraint_current` with its `constraints=` / `time_indices=` arguments -/
+
+/-- rows selected by `constraints=` (charging_network.py:458-465): `None` ⇒ all rows; otherwise the
+    rows whose name is listed, in MATRIX order, each once (not in the order of the request). -/
+def selectRows (cids : List String) (M : List (List K)) (names : Option (List String)) :
+    List (List K) :=
+  match names with
+  | none => ((List.zip cids M).map (·.2))
+  | some ns => ((List.zip cids M).filter fun p => ns.contains p.1).map (·.2)
+
+/-- columns selected by `time_indices=` (charging_network.py:469-470, numpy fancy indexing with
+    non-negative indices): in the order of the request, repeats allowed; an index beyond the
+    schedule raises `IndexError`. -/
+def selectCols (S : List (List K)) (ts : Option (List Nat)) : Except FeasErr (List (List K)) :=
+  match ts with
+  | none => .ok S
+  | some ts =>
+    if ts.all (fun t => decide (t < periods S)) then .ok (S.map fun row => ts.map fun t => row.getD t 0)
+    else .error .indexError
+
+/-- `|constraint_current(S, constraints, time_indices)|²` entrywise (charging_network.py:430-484,
+    `linear=False`) -/
+def constraintCurrentSq (cids : List String) (M : List (List K)) (c s : List K)
+    (S : List (List K)) (names : Option (List String)) (ts : Option (List Nat)) :
+    Except FeasErr (List (List K)) :=
+  match selectCols S ts with
+  | .error e => .error e
+  | .ok S' =>
+    .ok ((selectRows cids M names).map fun row =>
+      (List.range (periods S')).map fun t => sqMag row c s (col S' t))
+
+/-- `constraint_current(…, linear=True)` entrywise, repaired code -/
+def constraintCurrentLin (cids : List String) (M : List (List K))
+    (S : List (List K)) (names : Option (List String)) (ts : Option (List Nat)) :
+    Except FeasErr (List (List K)) :=
+  match selectCols S ts with
+  | .error e => .error e
+  | .ok S' =>
+    .ok ((selectRows cids M names).map fun row =>
+      (List.range (periods S')).map fun t => linAggFixed row (col S' t))
 /-- densify a `{station: [rates]}` mapping in network station order, zero rows for omitted
     stations (interface.py:663-670, simulator.py:256-263). `len` is the common length.
     Keys that are not stations of the network are ignored, as in the source. -/
